@@ -1553,7 +1553,7 @@ func Main(prop string) {
 		j := jobs[i]
 		sf := fmt.Sprintf("%s/state%d.json", tmp, i)
 		logf := fmt.Sprintf("%s/log%d.txt", tmp, i)
-		res := vlib.RunChild("", []string{"child", fmt.Sprint(j.seed), run.Tier, j.cfg.Name, sf}, []string{"VERIF_CHILD_LOG=" + logf, "VERIF_ISOLATE=" + strings.Join(isolated, ","), "VERIF_ONLY=" + j.only}, nil, 30*time.Minute)
+		res := vlib.RunChild("", []string{"child", fmt.Sprint(j.seed), run.Tier, j.cfg.Name, sf}, []string{"VERIF_CHILD_LOG=" + logf, "VERIF_ISOLATE=" + strings.Join(isolated, ","), "VERIF_ONLY=" + j.only}, nil, 150*time.Minute)
 		desc := map[string]interface{}{"config": j.cfg.Name, "child_seed": j.seed, "only": j.only}
 		if res.TimedOut {
 			run.Inconclusive("child watchdog fired: %v", desc)
